@@ -28,6 +28,9 @@ SHAPES = [
     ('2c-mix', dict(consumers=['mix', 'rn'], producers=1, ops=(1, 3), prefill=(1, 3)), 'random'),
     ('2c-mix-rot', dict(consumers=['rn', 'mix'], producers=2, ops=(1, 2), prefill=(0, 2), rotation=True), 'random'),
     ('2p-only-batch', dict(consumers=['br'], producers=2, ops=(2, 3), prefill=(0, 1), batch_p=1.0), 'random'),
+    # one producer whose appends rotate the block while one read_next consumer is inside it
+    ('1c-rn-rot', dict(consumers=['rn'], producers=1, ops=(2, 3), prefill=(0, 1), rotation=True, batch_p=0.2), 'random'),
+    ('1c-rn-rot-dfs', dict(consumers=['rn'], producers=1, ops=(1, 2), prefill=(0, 1), rotation=True, batch_p=0.0, extra_reads=0), 'dfs'),
 ]
 
 def run_schedule(w, P, sched):
@@ -229,7 +232,7 @@ def run(tier, seed, budget):
     q = tier == 'quick'
     rep = Report('C05', tier, seed, 'exploration')
     rep.rule = RULE
-    rep.required = {'schedules': 1200, 'context_switches': 3000, 'delivered_concurrently': 1000, 'feature:rotation-in-window': 40,
+    rep.required = {'schedules': 1200, 'context_switches': 3000, 'delivered_concurrently': 1000, 'feature:rotation-in-window': 150,
                     'site:rn_after_writer_snapshot': 100, 'site:br_after_writer_snapshot': 100, 'site:bw_after_flag': 50,
                     'feature:single-consumer': 300, 'feature:multi-consumer': 300}
     rep.assumptions = ['threads switch only at the sched_point hooks: code between two hooks runs atomically w.r.t. the other controlled threads '
@@ -242,7 +245,7 @@ def run(tier, seed, budget):
         for sh in SHAPES:
             idx += 1
             rot = bool(sh[1].get('rotation'))
-            tasks.append({'binary': binary, 'seed': seed, 'idx': idx, 'shape': sh, 'n_sched': (40 if rot else 220) if q else (400 if rot else 2500),
+            tasks.append({'binary': binary, 'seed': seed, 'idx': idx, 'shape': sh, 'n_sched': (110 if rot else 220) if q else (600 if rot else 2500),
                           'per_prog': 120 if q else 1500, 'per_prog_random': 8 if q else 12, 'wall': 60 if q else 600,
                           'free': (rnd % 4 == 1) if q else (rnd % 4 == 3)})
     t_total = 0
